@@ -94,7 +94,8 @@ fn check_hour(ctx: &Ctx, civ: &Civil, tm: &Terms, inst: i64, loc: &mut Local) {
         let ec = nx.get_eight_char();
         (ec.get_name(), nx.get_sixty_cycle_hour().get_eight_char().get_name(), nx.get_sixty_cycle().get_name())
       });
-      let key = format!("{} next({:+})", fmt_inst(civ, inst), n);
+      // keyed by the instant whose characters are reported (so that the known reform-era dates are recognised)
+      let key = format!("{} reached by next({:+}) from {}", fmt_inst(civ, t), n, fmt_inst(civ, inst));
       match r {
         Ok((a, b, c)) => {
           if a != wantn.join(" ") || b != wantn.join(" ") || c != wantn[3] {
